@@ -209,17 +209,8 @@ func loadHarnessFiles(dir string) ([]*harnessFile, error) {
 					case "module":
 						hf.Module = strings.TrimSpace(mm[2])
 					case "include":
-						name := strings.TrimSpace(mm[2])
-						hf.Includes = append(hf.Includes, name)
-						// directives declared inside the model file apply to this harness file
-						if mb, err := os.ReadFile(modelPath(name)); err == nil {
-							for _, line := range strings.Split(string(mb), "\n") {
-								if m2 := dirRe.FindStringSubmatch(strings.TrimSpace(line)); m2 != nil {
-									hf.Dirs = append(hf.Dirs, m2[1]+" "+strings.TrimSpace(m2[2]))
-								}
-							}
-						} else {
-							return nil, fmt.Errorf("%s: include %s: %v", p, name, err)
+						if err := addInclude(hf, strings.TrimSpace(mm[2])); err != nil {
+							return nil, fmt.Errorf("%s: %v", p, err)
 						}
 					default:
 						hf.Dirs = append(hf.Dirs, mm[1]+" "+strings.TrimSpace(mm[2]))
@@ -255,6 +246,33 @@ func loadHarnessFiles(dir string) ([]*harnessFile, error) {
 		out = append(out, hf)
 	}
 	return out, nil
+}
+
+// addInclude registers a model template (and, recursively, the templates it includes); directives declared inside a
+// model file apply to the including harness file.
+func addInclude(hf *harnessFile, name string) error {
+	for _, have := range hf.Includes {
+		if have == name {
+			return nil
+		}
+	}
+	mb, err := os.ReadFile(modelPath(name))
+	if err != nil {
+		return fmt.Errorf("include %s: %v", name, err)
+	}
+	hf.Includes = append(hf.Includes, name)
+	for _, line := range strings.Split(string(mb), "\n") {
+		if m2 := dirRe.FindStringSubmatch(strings.TrimSpace(line)); m2 != nil {
+			if m2[1] == "include" {
+				if err := addInclude(hf, strings.TrimSpace(m2[2])); err != nil {
+					return err
+				}
+				continue
+			}
+			hf.Dirs = append(hf.Dirs, m2[1]+" "+strings.TrimSpace(m2[2]))
+		}
+	}
+	return nil
 }
 
 func modelPath(name string) string {
